@@ -1,1 +1,632 @@
 // Suites that need access to items private to this module (feature ipa-verif, test builds only).
+//
+// ---------------------------------------------------------------------------------------------
+// C18 — query lifecycle. This file is `include!`d as `crate::query::ipa_verif_hook`, so it sees the
+// private `processor`, `state`, `completion`, `runner` modules of `crate::query`.
+//
+// Request grammar
+//   c18.min <A> <B>                 min_status(A, B)            -> status name
+//   c18.tr <Cur> <New>              QueryState::transition      -> ok | AlreadyRunning | InvalidState:<from>:<to> | panic:…
+//   c18.status <State>              QueryStatus::from(&state)   -> status name | panic:…
+//   c18.hist <h> <s> <n> <op,op,…>  a history of calls on ONE real `Processor` that sits at helper
+//        index h (0 = the identity that RoleAssignment::new maps to H1), shard s of n shards.
+//        Ops (peer/shard replies are scripted: o = accept, e = reject):
+//          nq:<p><p>:<r…>   new_query; replies of the two other helpers (order: left, right), then one
+//                            reply per other shard
+//          ph:<r…>          prepare_helper (roles = RoleAssignment::new(make_three()))
+//          ps               prepare_shard
+//          ri               receive_inputs (on success the spawned task is replaced by a stub task whose
+//                            result the harness controls; task ids count successful receive_inputs)
+//          qs:<r…>          query_status; per other shard: o = same status, 0..4 = DifferentStatus with
+//                            that status index, x = some other error
+//          ss:<k>           shard_status with CompareStatusRequest.status = status index k
+//          co:<r…>          complete (spawned; if it cannot finish it stays pending)
+//          ki               kill
+//          to:<id> te:<id>  the stub task <id> returns Ok / Err
+//        Response: one `<result>/<passive status after>` per op, comma separated.
+// ---------------------------------------------------------------------------------------------
+pub mod c18 {
+    use std::{
+        sync::{Arc, Mutex},
+        time::Duration,
+    };
+
+    use super::super::{
+        processor::{
+            NewQueryError, PrepareQueryError, Processor, QueryCompletionError, QueryInputError,
+            QueryKillStatus, QueryStatusError,
+        },
+        runner::QueryResult,
+        state::{QueryState, QueryStatus, RunningQuery, StateError, min_status},
+    };
+    use crate::{
+        executor::IpaRuntime,
+        ff::{FieldType, boolean_array::BA64},
+        helpers::{
+            ApiError, BodyStream, HandlerBox, HelperIdentity, HelperResponse, InMemoryMpcNetwork,
+            InMemoryShardNetwork, RequestHandler, RoleAssignment, Transport, make_owned_handler,
+            query::{CompareStatusRequest, PrepareQuery, QueryConfig, QueryType::TestMultiply},
+            routing::RouteId,
+        },
+        ipa_verif::proto::*,
+        protocol::QueryId,
+        sharding::ShardIndex,
+    };
+
+    const STATUSES: [QueryStatus; 5] = [
+        QueryStatus::Preparing,
+        QueryStatus::AwaitingInputs,
+        QueryStatus::Running,
+        QueryStatus::AwaitingCompletion,
+        QueryStatus::Completed,
+    ];
+    const STATE_NAMES: [&str; 6] = [
+        "Empty",
+        "Preparing",
+        "AwaitingInputs",
+        "Running",
+        "AwaitingCompletion",
+        "Completed",
+    ];
+
+    fn status_by_name(s: &str) -> QueryStatus {
+        *STATUSES
+            .iter()
+            .find(|x| format!("{x:?}") == s)
+            .unwrap_or_else(|| panic!("harness: unknown status {s}"))
+    }
+
+    fn config() -> QueryConfig {
+        QueryConfig::new(TestMultiply, FieldType::Fp31, 1).unwrap()
+    }
+
+    fn roles() -> RoleAssignment {
+        RoleAssignment::new(HelperIdentity::make_three())
+    }
+
+    fn ok_result() -> QueryResult {
+        Ok(Box::new(Vec::<BA64>::new()))
+    }
+
+    fn err_result() -> QueryResult {
+        Err(crate::error::Error::Internal)
+    }
+
+    /// Must run inside a tokio runtime (`Running` needs a spawned task).
+    fn state_by_name(s: &str) -> QueryState {
+        match s {
+            "Empty" => QueryState::Empty,
+            "Preparing" => QueryState::Preparing(config()),
+            "AwaitingInputs" => QueryState::AwaitingInputs(config(), roles()),
+            "Running" => {
+                let (_tx, rx) = tokio::sync::oneshot::channel();
+                QueryState::Running(RunningQuery {
+                    result: rx,
+                    join_handle: IpaRuntime::current().spawn(async {}),
+                })
+            }
+            "AwaitingCompletion" => QueryState::AwaitingCompletion(Default::default()),
+            "Completed" => QueryState::Completed(ok_result()),
+            _ => panic!("harness: unknown state {s}"),
+        }
+    }
+
+    fn state_error(e: &StateError) -> String {
+        match e {
+            StateError::AlreadyRunning => "AlreadyRunning".into(),
+            StateError::InvalidState { from, to } => format!("InvalidState:{from:?}:{to:?}"),
+        }
+    }
+
+    fn current_thread<T>(fut: impl std::future::Future<Output = T>) -> Result<T, String> {
+        let rt = tokio::runtime::Builder::new_current_thread()
+            .enable_all()
+            .build()
+            .unwrap();
+        rt.block_on(async { tokio::time::timeout(Duration::from_secs(30), fut).await })
+            .map_err(|_| "timeout".to_string())
+    }
+
+    // ------------------------------------------------------------------ tables
+    pub fn exec_tables(req: &str) -> String {
+        let t: Vec<&str> = req.split(' ').collect();
+        match t[0] {
+            "c18.min" => format!("{:?}", min_status(status_by_name(t[1]), status_by_name(t[2]))),
+            "c18.tr" => current_thread(async {
+                let cur = state_by_name(t[1]);
+                let new = state_by_name(t[2]);
+                match QueryState::transition(&cur, new) {
+                    Ok(s) => {
+                        // the returned state must be the requested one
+                        let got = QueryStatus::from(&s);
+                        assert_eq!(format!("{got:?}"), t[2], "transition returned another state");
+                        "ok".to_string()
+                    }
+                    Err(e) => state_error(&e),
+                }
+            })
+            .unwrap_or_else(|e| e),
+            "c18.status" => current_thread(async {
+                let s = state_by_name(t[1]);
+                format!("{:?}", QueryStatus::from(&s))
+            })
+            .unwrap_or_else(|e| e),
+            _ => panic!("harness: unknown request {req}"),
+        }
+    }
+
+    pub fn gen_tables(_rng: &mut Rng, _thorough: bool) -> Vec<String> {
+        let mut v = Vec::new();
+        for a in STATUSES {
+            for b in STATUSES {
+                v.push(format!("c18.min {a:?} {b:?}"));
+            }
+        }
+        for a in STATE_NAMES {
+            for b in STATE_NAMES {
+                v.push(format!("c18.tr {a} {b}"));
+            }
+        }
+        for a in STATE_NAMES {
+            v.push(format!("c18.status {a}"));
+        }
+        v
+    }
+
+    // ------------------------------------------------------------------ histories
+    #[derive(Clone, Copy, Debug)]
+    enum Reply {
+        Ok,
+        Reject,
+        Differ(QueryStatus),
+    }
+
+    #[derive(Default)]
+    struct Script {
+        mpc: [Option<Reply>; 3],
+        shard: Vec<Reply>,
+    }
+
+    fn reply_to_result(r: Reply) -> Result<HelperResponse, ApiError> {
+        match r {
+            Reply::Ok => Ok(HelperResponse::ok()),
+            Reply::Reject => Err(ApiError::QueryStatus(QueryStatusError::NoSuchQuery(QueryId))),
+            Reply::Differ(s) => Err(ApiError::QueryStatus(QueryStatusError::DifferentStatus {
+                query_id: QueryId,
+                my_status: s,
+                other_status: QueryStatus::Preparing,
+            })),
+        }
+    }
+
+    struct World {
+        processor: Arc<Processor>,
+        script: Arc<Mutex<Script>>,
+        mpc: InMemoryMpcNetwork,
+        shards: InMemoryShardNetwork,
+        _mpc_handlers: Vec<Arc<dyn RequestHandler<HelperIdentity>>>,
+        _shard_handlers: Vec<Arc<dyn RequestHandler<ShardIndex>>>,
+        h: usize,
+        s: u32,
+        n: u32,
+        senders: Vec<Option<tokio::sync::oneshot::Sender<QueryResult>>>,
+        pending: Vec<(usize, tokio::task::JoinHandle<Result<(), QueryCompletionError>>)>,
+    }
+
+    impl World {
+        fn new(h: usize, s: u32, n: u32) -> Self {
+            let script = Arc::new(Mutex::new(Script::default()));
+            let ids = HelperIdentity::make_three();
+            let mpc_handlers: Vec<Arc<dyn RequestHandler<HelperIdentity>>> = (0..3)
+                .map(|j| {
+                    let script = Arc::clone(&script);
+                    make_owned_handler(move |_req, _body| {
+                        let r = script.lock().unwrap().mpc[j].unwrap_or(Reply::Ok);
+                        futures::future::ready(reply_to_result(r))
+                    })
+                })
+                .collect();
+            let mpc = InMemoryMpcNetwork::new([
+                Some(HandlerBox::owning_ref(&mpc_handlers[0])),
+                Some(HandlerBox::owning_ref(&mpc_handlers[1])),
+                Some(HandlerBox::owning_ref(&mpc_handlers[2])),
+            ]);
+            let script2 = Arc::clone(&script);
+            let (shards, shard_handlers) = InMemoryShardNetwork::with_shards_and_handlers(n, move |si| {
+                let script = Arc::clone(&script2);
+                make_owned_handler(move |_req, _body| {
+                    let idx = usize::from(si);
+                    let r = script.lock().unwrap().shard.get(idx).copied().unwrap_or(Reply::Ok);
+                    futures::future::ready(reply_to_result(r))
+                })
+            });
+            let _ = ids;
+            World {
+                processor: Arc::new(Processor::default()),
+                script,
+                mpc,
+                shards,
+                _mpc_handlers: mpc_handlers,
+                _shard_handlers: shard_handlers,
+                h,
+                s,
+                n,
+                senders: Vec::new(),
+                pending: Vec::new(),
+            }
+        }
+
+        fn me(&self) -> HelperIdentity {
+            HelperIdentity::make_three()[self.h]
+        }
+
+        fn mpc_t(&self) -> crate::helpers::InMemoryTransport<HelperIdentity> {
+            self.mpc.transport(self.me())
+        }
+
+        fn shard_t(&self) -> crate::helpers::InMemoryTransport<ShardIndex> {
+            self.shards.transport(self.me(), ShardIndex::from(self.s))
+        }
+
+        /// one scripted reply per *other* shard, in increasing shard order
+        fn set_shard_replies(&self, spec: &str, differ_ok: bool) {
+            let mut replies = vec![Reply::Ok; self.n as usize];
+            let others: Vec<usize> = (0..self.n as usize).filter(|i| *i != self.s as usize).collect();
+            let chars: Vec<char> = spec.chars().collect();
+            assert_eq!(chars.len(), others.len(), "harness: need one reply per other shard");
+            for (c, i) in chars.iter().zip(others) {
+                replies[i] = match c {
+                    'o' => Reply::Ok,
+                    'e' | 'x' => Reply::Reject,
+                    '0'..='4' if differ_ok => Reply::Differ(STATUSES[*c as usize - '0' as usize]),
+                    _ => panic!("harness: bad reply {c}"),
+                };
+            }
+            self.script.lock().unwrap().shard = replies;
+        }
+
+        fn passive_status(&self) -> String {
+            match self.processor.ipa_verif_queries().handle(QueryId).status() {
+                None => "none".into(),
+                Some(s) => format!("{s:?}"),
+            }
+        }
+
+        async fn settle(&self) {
+            for _ in 0..64 {
+                tokio::task::yield_now().await;
+            }
+        }
+
+        /// pending `complete` calls that have finished: (task id, result)
+        async fn reap(&mut self) -> Vec<(usize, String)> {
+            let mut done = Vec::new();
+            let mut i = 0;
+            while i < self.pending.len() {
+                if self.pending[i].1.is_finished() {
+                    let (id, jh) = self.pending.remove(i);
+                    let r = match jh.await {
+                        Ok(r) => completion_result(&r),
+                        Err(e) => format!("panic:{}", canon(&e.to_string())),
+                    };
+                    done.push((id, r));
+                } else {
+                    i += 1;
+                }
+            }
+            done
+        }
+
+        async fn op(&mut self, op: &str) -> String {
+            let parts: Vec<&str> = op.split(':').collect();
+            let res = match parts[0] {
+                "nq" => {
+                    let p: Vec<char> = parts[1].chars().collect();
+                    let [right, left] = self.me().others();
+                    {
+                        let mut sc = self.script.lock().unwrap();
+                        sc.mpc = [None; 3];
+                        let idx = |id: HelperIdentity| HelperIdentity::make_three().iter().position(|x| *x == id).unwrap();
+                        sc.mpc[idx(left)] = Some(if p[0] == 'o' { Reply::Ok } else { Reply::Reject });
+                        sc.mpc[idx(right)] = Some(if p[1] == 'o' { Reply::Ok } else { Reply::Reject });
+                    }
+                    self.set_shard_replies(parts.get(2).copied().unwrap_or(""), false);
+                    match self.processor.new_query(self.mpc_t(), self.shard_t(), config()).await {
+                        Ok(pq) => {
+                            assert_eq!(pq.roles.role(self.me()), crate::helpers::Role::H1);
+                            "ok".to_string()
+                        }
+                        Err(NewQueryError::State(e)) => format!("err:{}", state_error(&e)),
+                        Err(NewQueryError::MpcTransport(_)) => "err:MpcTransport".into(),
+                        Err(NewQueryError::ShardBroadcastError(_)) => "err:ShardBroadcast".into(),
+                    }
+                }
+                "ph" => {
+                    self.set_shard_replies(parts.get(1).copied().unwrap_or(""), false);
+                    let req = PrepareQuery { query_id: QueryId, config: config(), roles: roles() };
+                    match self.processor.prepare_helper(self.mpc_t(), self.shard_t(), req).await {
+                        Ok(()) => "ok".to_string(),
+                        Err(e) => format!("err:{}", prepare_error(&e)),
+                    }
+                }
+                "ps" => {
+                    let req = PrepareQuery { query_id: QueryId, config: config(), roles: roles() };
+                    match self.processor.prepare_shard(&self.shard_t(), req) {
+                        Ok(()) => "ok".to_string(),
+                        Err(e) => format!("err:{}", prepare_error(&e)),
+                    }
+                }
+                "ri" => {
+                    match self.processor.receive_inputs(self.mpc_t(), self.shard_t(), QueryId, BodyStream::empty()) {
+                        Ok(()) => {
+                            // Replace the real protocol task (never polled so far: current-thread
+                            // runtime, no await since it was spawned) by a stub whose result we control.
+                            let (tx, rx) = tokio::sync::oneshot::channel();
+                            let mut q = self.processor.ipa_verif_queries().inner.lock().unwrap();
+                            match q.remove(&QueryId) {
+                                Some(QueryState::Running(real)) => real.join_handle.abort(),
+                                _ => panic!("harness: receive_inputs returned Ok but the state is not Running"),
+                            }
+                            q.insert(
+                                QueryId,
+                                QueryState::Running(RunningQuery {
+                                    result: rx,
+                                    join_handle: IpaRuntime::current().spawn(std::future::pending()),
+                                }),
+                            );
+                            self.senders.push(Some(tx));
+                            format!("ok:{}", self.senders.len() - 1)
+                        }
+                        Err(QueryInputError::NoSuchQuery(_)) => "err:NoSuchQuery".into(),
+                        Err(QueryInputError::StateError { source }) => format!("err:{}", state_error(&source)),
+                    }
+                }
+                "qs" => {
+                    self.set_shard_replies(parts.get(1).copied().unwrap_or(""), true);
+                    match self.processor.query_status(self.shard_t(), QueryId).await {
+                        Ok(s) => format!("ok:{s:?}"),
+                        Err(e) => format!("err:{}", status_error(&e)),
+                    }
+                }
+                "ss" => {
+                    let k: usize = parts[1].parse().unwrap();
+                    let req = CompareStatusRequest { query_id: QueryId, status: STATUSES[k] };
+                    match self.processor.shard_status(&self.shard_t(), &req) {
+                        Ok(s) => format!("ok:{s:?}"),
+                        Err(e) => format!("err:{}", status_error(&e)),
+                    }
+                }
+                "co" => {
+                    self.set_shard_replies(parts.get(1).copied().unwrap_or(""), false);
+                    let p = Arc::clone(&self.processor);
+                    let st = self.shard_t();
+                    // which task would this call wait for?
+                    let task_id = self.senders.len().wrapping_sub(1);
+                    let jh = tokio::spawn(async move { p.complete(QueryId, st).await.map(|_| ()) });
+                    self.settle().await;
+                    if jh.is_finished() {
+                        match jh.await {
+                            Ok(r) => completion_result(&r),
+                            Err(e) => format!("panic:{}", canon(&e.to_string())),
+                        }
+                    } else {
+                        self.pending.push((task_id, jh));
+                        format!("pending:{task_id}")
+                    }
+                }
+                "ki" => match self.processor.kill(QueryId) {
+                    Ok(_) => "ok".to_string(),
+                    Err(QueryKillStatus::NoSuchQuery(_)) => "err:NoSuchQuery".into(),
+                },
+                "to" | "te" => {
+                    let id: usize = parts[1].parse().unwrap();
+                    let r = if parts[0] == "to" { ok_result() } else { err_result() };
+                    match self.senders.get_mut(id).and_then(Option::take) {
+                        None => "dropped".to_string(),
+                        Some(tx) => {
+                            let was_pending = self.pending.iter().any(|(t, _)| *t == id);
+                            match tx.send(r) {
+                                Err(_) => "dropped".to_string(),
+                                Ok(()) => {
+                                    self.settle().await;
+                                    if was_pending {
+                                        let done = self.reap().await;
+                                        match done.iter().find(|(t, _)| *t == id) {
+                                            Some((_, r)) => format!("resolved:{r}"),
+                                            None => "unresolved".to_string(),
+                                        }
+                                    } else {
+                                        "stored".to_string()
+                                    }
+                                }
+                            }
+                        }
+                    }
+                }
+                _ => panic!("harness: unknown op {op}"),
+            };
+            self.settle().await;
+            // no pending completion may finish except through its own task event
+            let stray = self.reap().await;
+            let mut out = res;
+            for (id, r) in stray {
+                out.push_str(&format!("+stray{id}={r}"));
+            }
+            format!("{out}/{}", self.passive_status())
+        }
+    }
+
+    fn completion_result(r: &Result<(), QueryCompletionError>) -> String {
+        match r {
+            Ok(()) => "ok".into(),
+            Err(QueryCompletionError::NoSuchQuery(_)) => "err:NoSuchQuery".into(),
+            Err(QueryCompletionError::StateError { source }) => format!("err:{}", state_error(source)),
+            Err(QueryCompletionError::ExecutionError(_)) => "err:Execution".into(),
+            Err(QueryCompletionError::ShardError(_)) => "err:ShardError".into(),
+        }
+    }
+
+    fn prepare_error(e: &PrepareQueryError) -> String {
+        match e {
+            PrepareQueryError::WrongTarget => "WrongTarget".into(),
+            PrepareQueryError::NotLeader(_) => "NotLeader".into(),
+            PrepareQueryError::Leader => "Leader".into(),
+            PrepareQueryError::AlreadyRunning => "AlreadyRunning".into(),
+            PrepareQueryError::StateError { source } => state_error(source),
+            PrepareQueryError::ShardBroadcastError(_) => "ShardBroadcast".into(),
+        }
+    }
+
+    fn status_error(e: &QueryStatusError) -> String {
+        match e {
+            QueryStatusError::NoSuchQuery(_) => "NoSuchQuery".into(),
+            QueryStatusError::ShardBroadcastError(_) => "ShardBroadcast".into(),
+            QueryStatusError::NotLeader(_) => "NotLeader".into(),
+            QueryStatusError::Leader => "Leader".into(),
+            QueryStatusError::DifferentStatus { my_status, other_status, .. } => {
+                format!("DifferentStatus:{my_status:?}:{other_status:?}")
+            }
+        }
+    }
+
+    pub fn exec_hist(req: &str) -> String {
+        let t: Vec<&str> = req.split(' ').collect();
+        assert_eq!(t[0], "c18.hist");
+        let (h, s, n): (usize, u32, u32) = (t[1].parse().unwrap(), t[2].parse().unwrap(), t[3].parse().unwrap());
+        let ops: Vec<String> = t[4].split(',').map(str::to_string).collect();
+        current_thread(async move {
+            let mut w = World::new(h, s, n);
+            let mut out = Vec::new();
+            for op in &ops {
+                out.push(w.op(op).await);
+            }
+            for (_, jh) in w.pending.drain(..) {
+                jh.abort();
+            }
+            out.join(",")
+        })
+        .unwrap_or_else(|e| e)
+    }
+
+    fn rep(c: char, k: u32) -> String {
+        std::iter::repeat(c).take(k as usize).collect()
+    }
+
+    /// the op alphabet for a processor with `k` other shards
+    fn alphabet(k: u32, full: bool) -> Vec<String> {
+        let o = rep('o', k);
+        let mut v = vec![format!("nq:oo:{o}"), "ps".to_string(), format!("ph:{o}"), "ri".to_string(),
+                         format!("qs:{o}"), "ss:2".to_string(), format!("co:{o}"), "ki".to_string(),
+                         "to:0".to_string(), "te:0".to_string()];
+        if full {
+            v.push(format!("nq:eo:{o}"));
+            v.push(format!("nq:oe:{o}"));
+            v.push("to:1".to_string());
+            v.push("te:1".to_string());
+            for k2 in [0usize, 1, 3, 4] {
+                v.push(format!("ss:{k2}"));
+            }
+            if k > 0 {
+                let e = format!("e{}", rep('o', k - 1));
+                v.push(format!("nq:oo:{e}"));
+                v.push(format!("ph:{e}"));
+                v.push(format!("co:{e}"));
+                v.push(format!("qs:x{}", rep('o', k - 1)));
+                for d in 0..5 {
+                    v.push(format!("qs:{d}{}", rep('o', k - 1)));
+                }
+            }
+        }
+        v
+    }
+
+    fn enumerate(alpha: &[String], depth: usize, prefix: &mut Vec<String>, head: &str, out: &mut Vec<String>) {
+        if !prefix.is_empty() {
+            out.push(format!("{head} {}", prefix.join(",")));
+        }
+        if prefix.len() == depth {
+            return;
+        }
+        for a in alpha {
+            prefix.push(a.clone());
+            enumerate(alpha, depth, prefix, head, out);
+            prefix.pop();
+        }
+    }
+
+    fn random_op(rng: &mut Rng, k: u32, tasks: &mut usize) -> String {
+        let reps = |rng: &mut Rng, alphabet: &[char], bias: u64| -> String {
+            (0..k).map(|_| if rng.below(bias) == 0 { *rng.pick(&alphabet[1..]) } else { alphabet[0] }).collect()
+        };
+        match rng.below(16) {
+            0 | 1 => {
+                let p: String = (0..2).map(|_| if rng.below(6) == 0 { 'e' } else { 'o' }).collect();
+                format!("nq:{p}:{}", reps(rng, &['o', 'e'], 6))
+            }
+            2 => format!("ph:{}", reps(rng, &['o', 'e'], 6)),
+            3 => "ps".into(),
+            4 | 5 | 6 => {
+                *tasks += 1;
+                "ri".into()
+            }
+            7 => format!("qs:{}", reps(rng, &['o', '0', '1', '2', '3', '4', 'x'], 2)),
+            8 => format!("ss:{}", rng.below(5)),
+            9 | 10 | 11 => format!("co:{}", reps(rng, &['o', 'e'], 8)),
+            12 => "ki".into(),
+            13 | 14 => format!("to:{}", rng.below((*tasks as u64).max(1) + 1)),
+            _ => format!("te:{}", rng.below((*tasks as u64).max(1) + 1)),
+        }
+    }
+
+    pub fn gen_hist(rng: &mut Rng, thorough: bool) -> Vec<String> {
+        let mut v = Vec::new();
+        // scripted scenarios first (the ones the property text names)
+        for (h, s, n) in [(0usize, 0u32, 1u32), (0, 0, 2), (1, 0, 2), (1, 1, 2), (0, 1, 3), (2, 0, 3)] {
+            let k = n - 1;
+            let o = rep('o', k);
+            let create = if s == 0 { if h == 0 { format!("nq:oo:{o}") } else { format!("ph:{o}") } } else { "ps".to_string() };
+            let head = format!("c18.hist {h} {s} {n}");
+            for sc in [
+                format!("{create},ri,to:0,qs:{o},co:{o},co:{o},{create}"),
+                format!("{create},ri,co:{o},ki,{create},to:0,qs:{o},ss:1"),
+                format!("{create},ri,co:{o},co:{o},ki,ki,to:0"),
+                format!("{create},ri,ri,te:0,co:{o},qs:{o},{create},ri,to:1,co:{o}"),
+                format!("qs:{o},ss:2,co:{o},ki,ri,{create},{create},ri,ki,to:0,{create}"),
+                format!("{create},ri,co:{o},ki,{create},ri,co:{o},to:0,to:1,qs:{o}"),
+                format!("nq:eo:{o},qs:{o},nq:oe:{o},qs:{o},nq:oo:{o},qs:{o}"),
+            ] {
+                v.push(format!("{head} {sc}"));
+            }
+        }
+        // exhaustive: full alphabet to depth 3, reduced alphabet to depth 4 (5 when thorough)
+        for (h, s, n) in [(0usize, 0u32, 2u32), (1, 0, 2), (1, 1, 2), (0, 0, 1)] {
+            let head = format!("c18.hist {h} {s} {n}");
+            let full = alphabet(n - 1, true);
+            enumerate(&full, if thorough { 3 } else { 2 }, &mut Vec::new(), &head, &mut v);
+            let small = alphabet(n - 1, false);
+            enumerate(&small, if thorough { 5 } else { 4 }, &mut Vec::new(), &head, &mut v);
+        }
+        // random long histories
+        let count = if thorough { 20000 } else { 1500 };
+        for _ in 0..count {
+            let n = 1 + rng.below(4) as u32;
+            let s = if rng.bool() { 0 } else { rng.below(u64::from(n)) as u32 };
+            let h = rng.usize_below(3);
+            let len = if rng.below(4) == 0 { 1 + rng.usize_below(8) } else { 30 };
+            let mut tasks = 0usize;
+            let ops: Vec<String> = (0..len).map(|_| random_op(rng, n - 1, &mut tasks)).collect();
+            v.push(format!("c18.hist {h} {s} {n} {}", ops.join(",")));
+        }
+        v
+    }
+}
+
+#[test]
+fn verif_c18_tables() {
+    crate::ipa_verif::proto::run_suite("c18_tables", c18::gen_tables, c18::exec_tables);
+}
+
+#[test]
+fn verif_c18_histories() {
+    crate::ipa_verif::proto::run_suite("c18_histories", c18::gen_hist, c18::exec_hist);
+}
